@@ -1,5 +1,6 @@
 import Wasp.Model.Broker
 import Wasp.Properties.C14
+import Wasp.Proofs.BrokerB
 /-!
 # C05 — inbound publishes: stored before acknowledged; QoS 2 forwarded exactly once
 
@@ -14,7 +15,7 @@ import Wasp.Properties.C14
 * `C05_expired_handshake_forwards_nothing`: a handshake that times out is dropped without forwarding.
 -/
 namespace Wasp.Broker
-open Wasp.Dist Wasp.Topic
+open Wasp.Dist Wasp.Topic Wasp.Broker.AgentB
 
 theorem C05_qos1_ack_iff_stored (w : World) (i : Nat) (sid : String) (s : Sess) (hs : (w.node i).sess sid = some s)
     (topic payload : String) (retain dup : Bool) (mid : Int) :
@@ -22,37 +23,88 @@ theorem C05_qos1_ack_iff_stored (w : World) (i : Nat) (sid : String) (s : Sess) 
     let r := (afterRetain w i p).distribute i { p with retain := false }
     (w.process i sid (.publish topic payload 1 retain dup mid)).1 =
       (if r.2 then r.1.emit s.conn (.puback mid) else r.1) := by
-  sorry
+  intro p r
+  simp only [World.process, hs]
+  simp
+  rfl
 
 theorem C05_qos2_publish_forwards_nothing (w : World) (i : Nat) (sid : String) (topic payload : String) (retain dup : Bool) (mid : Int) (j : Nat) :
     ((w.process i sid (.publish topic payload 2 retain dup mid)).1.node j).log = (w.node j).log := by
-  sorry
+  simp only [World.process]
+  cases hs : (w.node i).sess sid with
+  | none => rfl
+  | some s =>
+    simp only []
+    simp
+    split
+    · simp only [node_emit, node_setNode]
+      split
+      · next h => rw [h.1]
+      · rfl
+    · rfl
 
 /-- a second QoS 2 PUBLISH on an open handshake is rejected and leaves the handshake as it was -/
 theorem C05_qos2_duplicate_rejected (w : World) (i : Nat) (sid : String) (s : Sess) (hs : (w.node i).sess sid = some s)
     (topic payload : String) (retain dup : Bool) (mid : Int) (m : Ack.Msg)
     (hopen : Ack.msgFind (Ack.hashKey (sid ++ "/in") mid) (w.node i).acks.msgs = some m) :
     w.process i sid (.publish topic payload 2 retain dup mid) = (w, .error) := by
-  sorry
+  have h : (Ack.insert (w.node i).acks (sid ++ "/in") .pubrec 0 mid (ackDeadline w)).2 ≠ .ok := by
+    rcases Ack.insert_cases (w.node i).acks (sid ++ "/in") .pubrec 0 mid (ackDeadline w) with ⟨_, h2, _⟩ | ⟨st, _, hn, _⟩
+    · exact h2
+    · rw [hn] at hopen; cases hopen
+  simp only [World.process, hs]
+  simp [h]
 
 /-- PUBREL with no open handshake: nothing happens (no forward, no PUBCOMP) -/
 theorem C05_pubrel_unknown (w : World) (i : Nat) (sid : String) (mid : Int)
     (hnone : Ack.msgFind (Ack.hashKey (sid ++ "/in") mid) (w.node i).acks.msgs = none) (hi : i < w.nodes.length) :
     w.ackFrom i (sid ++ "/in") .pubrel mid = w := by
-  sorry
+  have h : Ack.ack (w.node i).acks (sid ++ "/in") .pubrel true mid = ((w.node i).acks, .errWrongMID, []) := by
+    simp [Ack.ack, hnone]
+  simp only [World.ackFrom, h, List.foldl_nil]
+  exact setNode_node_self w i hi
 
 /-- PUBREL for an open handshake: the handshake is closed (so a repeated PUBREL falls under
-    `C05_pubrel_unknown`) -/
+    `C05_pubrel_unknown`).
+
+    CHANGED STATEMENT: hypothesis `hreg` added — no session is registered on node i under the id
+    `sid ++ "/in"`. Outbound deliveries to a session `sid'` are keyed `hashKey sid' mid'` in the same table;
+    `hashKey` determines its prefix (`hashKey_prefix_inj`), so `hreg` is equivalent to "no registered
+    session can produce the key of this handshake". Without it the statement is false:
+    `C05_pubrel_closes_counterexample`. -/
 theorem C05_pubrel_closes (w : World) (i : Nat) (sid : String) (mid : Int) (m : Ack.Msg) (hi : i < w.nodes.length)
     (hopen : Ack.msgFind (Ack.hashKey (sid ++ "/in") mid) (w.node i).acks.msgs = some m) (hst : m.state = .pubrel)
-    (hk : ((w.node i).acks.msgs.map (·.1)).Nodup) :
+    (hk : ((w.node i).acks.msgs.map (·.1)).Nodup)
+    (hreg : (w.node i).sess (sid ++ "/in") = none) :
     Ack.msgFind (Ack.hashKey (sid ++ "/in") mid) ((w.ackFrom i (sid ++ "/in") .pubrel mid).node i).acks.msgs = none := by
-  sorry
+  simp only [World.ackFrom, Ack.ack_ok_eq hopen hst, List.foldl_cons, List.foldl_nil]
+  have hstep := WRelS.ackStep (Ack.hashKey (sid ++ "/in") mid)
+    (w.setNode i { w.node i with acks :=
+      { msgs := Ack.msgErase (Ack.hashKey (sid ++ "/in") mid) (w.node i).acks.msgs,
+        timeouts := (Ack.pqDelete (Ack.hashKey (sid ++ "/in") mid) m.deadline (w.node i).acks.timeouts).1 } }) i
+    ⟨Ack.hashKey (sid ++ "/in") mid, false, m.stored⟩
+  refine (hstep.2 i).safe ?_ ?_
+  · apply noClash_of_none
+    rw [node_setNode, if_pos ⟨rfl, hi⟩]
+    exact hreg
+  · rw [node_setNode, if_pos ⟨rfl, hi⟩]
+    exact Ack.msgFind_erase_self hk
+
+/-- the original statement of `C05_pubrel_closes` (without `hreg`) fails in `cexWorld`: all its hypotheses
+    hold for i = 0, sid = "S", mid = 5, yet after the PUBREL the key is occupied again (by the PUBREL the
+    broker sends to the session named "S/in") -/
+theorem C05_pubrel_closes_counterexample :
+    (0 < cexWorld.nodes.length) ∧
+    Ack.msgFind (Ack.hashKey ("S" ++ "/in") 5) (cexWorld.node 0).acks.msgs = some ⟨.pubrel, .pubrec, 5, 3000⟩ ∧
+    ((cexWorld.node 0).acks.msgs.map (·.1)).Nodup ∧
+    Ack.msgFind (Ack.hashKey ("S" ++ "/in") 5) ((cexWorld.ackFrom 0 ("S" ++ "/in") .pubrel 5).node 0).acks.msgs
+      = some ⟨.pubcomp, .pubrel, 5, 3000⟩ := by
+  decide
 
 /-- the reaction to a resolved inbound handshake: the publish pipeline once if it was acknowledged by PUBREL,
     nothing if it expired -/
 theorem C05_expired_handshake_forwards_nothing (w : World) (i : Nat) (ev : Ack.Resolved) (sess conn : String) (pub : Pub) (mid : Int) :
     w.onResolved i ev (.inbound sess conn pub mid) = w := by
-  sorry
+  rfl
 
 end Wasp.Broker
